@@ -478,21 +478,25 @@ func (c *Ctx) concatNonceSPIShape(fn *ssa.Function) (bool, string) {
 // registryLengthRules: key/output lengths and hash constructors of PRF, integrity and encryption
 // descriptors against the RFC table (subset of C11's registry.reference rule).
 func (c *Ctx) registryLengthRules(r *Report, prefix string) {
-	rule := prefix + "registry-lengths"
-	r.Rule(rule, "key length, output length, hash constructor and Init key-length guard of every PRF / integrity / encryption descriptor equal the RFC table", 9)
+	c.registryLengthRulesOf(r, prefix+"registry-lengths", 0, 9)
+}
+
+// registryLengthRulesOf checks the IKE (which = 0) or Child SA / kernel (which = 1) descriptor tables.
+func (c *Ctx) registryLengthRulesOf(r *Report, rule string, which int, floor int) {
+	r.Rule(rule, "key length, output length, hash constructor and Init key-length guard of every PRF / integrity / encryption descriptor equal the RFC table", floor)
 	for _, rs := range regSpecs {
-		if rs.TType > 3 {
+		if rs.TType > 3 || which >= len(rs.Types) {
 			continue
 		}
-		ents, _, err := c.registryEntries(rs.Rel, rs.Types[0])
+		ents, _, err := c.registryEntries(rs.Rel, rs.Types[which])
 		if err != nil {
-			r.undecided(rule, rs.Rel+"."+rs.Types[0], "-", err.Error())
+			r.undecided(rule, rs.Rel+"."+rs.Types[which], "-", err.Error())
 			continue
 		}
 		for _, e := range ents {
 			name := e.Key.ExactString()
 			di := c.describe(name, c.descriptorOf(e.Val), e.Site)
-			key := rs.Rel + "." + rs.Types[0] + "[" + name + "]"
+			key := rs.Rel + "." + rs.Types[which] + "[" + name + "]"
 			if di.Err != "" {
 				r.undecided(rule, key, di.Pos, di.Err)
 				continue
@@ -540,6 +544,7 @@ func RunC08(c *Ctx, r *Report) {
 	}
 	r.Func(c.FuncName(gen))
 	c.c08Totality(r, prefix)
+	c.registryLengthRulesOf(r, prefix+"registry-lengths.child", 1, 6)
 	f := c.NewFA(gen)
 	rule1 := prefix + "offset-table"
 	r.Rule(rule1, "the four Child SA keys are the consecutive slices ei [0,E) ai [E,E+A) er [E+A,2E+A) ar [2E+A,2E+2A) of prf+(SK_d, nonce), with 2(E+A) octets requested, E/A from the negotiated ESP descriptors and A = 0 when integrity is absent", 7)
